@@ -13,6 +13,13 @@ is loaded into a real Experiment.  Then a generated sequence of operations is ap
                   get_node_state / get_placeholder_state, _true_nodes_from_identifiers, _input_dependencies_satisfied,
                   DataReference.resolve / true_reference_to_component_id of the consumers.
 
+  ["read", "reload"]  the instance as stored on disk is loaded anew (Experiment.experimentFromInstance) and observed.
+
+Every case carries its ambient logging configuration (`log`: None = disabled, or levels of the root logger / the
+loggers of the anchored modules), optionally `hashseed` (the real code is run in a child process with that
+PYTHONHASHSEED), `again_after` (other cases to run before the case is run a second time in this process) and `sparse`
+(observe only at the start and the end: cases with >= 100 iterations).
+
 After the load and after EVERY operation the harness observes: components of the concrete FlowIR with their
 references, graph nodes and edges, WorkflowGraph._placeholders (represents, latest), the state of every DoWhile document,
 the Controller's registered condition producers and its dependency analysis of every placeholder, and the resolution
@@ -81,13 +88,14 @@ COND_NAMES = ["stop", "check", "cond1", "a0"]
 METHODS = ["ref", "output", "copy", "link"]
 ARG_METHODS = ("ref", "output", "loopref", "loopoutput")
 # operations that only READ the placeholders: the first group needs a Controller
-READ_CTL = ["status", "status-active", "preds", "state", "deps"]
+READ_CTL = ["status", "status-active", "preds", "state", "deps", "reload"]
 READ_GRAPH = ["resolve"]
 
 
-def gen_loop(rng, imp, src_no, avoid_names):
-    """one DoWhile document imported at stage `imp` and the source components its bindings point to; `avoid_names`:
-    names that must not be used (None: any name)"""
+def gen_loop(rng, imp, src_no, avoid_names, aggregate=None):
+    """one DoWhile document imported at stage `imp`, the source components its bindings point to and the template ids
+    of the looped components that a looped sibling aggregates (:loopref/:loopoutput inside the loop); `avoid_names`:
+    names that must not be used (None: any name); `aggregate`: force / forbid aggregate references inside the loop"""
     pool = [n for n in NAMES if not avoid_names or n not in avoid_names]
     cpool = [n for n in COND_NAMES if not avoid_names or n not in avoid_names]
     nloop = rng.randint(1, min(3, len(pool)))
@@ -167,6 +175,35 @@ def gen_loop(rng, imp, src_no, avoid_names):
                 if t["stage"] == c["stage"] and order.index(t) < order.index(c) and not any(
                         (x["producer"], x["method"]) == (t["name"], r["method"]) for x in c["refs"]):
                     c["refs"].append(R(t["name"], r["method"], stage=None, file=r["file"] or b["file"] if r["method"] != "output" else ""))
+    # aggregate references INSIDE the loop (`stop when the history of x:loopoutput has converged`): a looped component
+    # on which nothing in the loop depends (no reference to it, not the source of a loop-carried binding) — most often
+    # the condition component itself — reads all instances of a looped sibling of its own or an earlier stage.  (A
+    # component that something else in the loop depends on cannot: the reference expands to all instances + the
+    # producer of the current condition, which would close a cycle.)
+    agg_targets = []
+    if aggregate is None:
+        aggregate = rng.random() < 0.3
+    if aggregate and len(comps) >= 2:
+        referenced = {((r["stage"] if r["stage"] is not None else c["stage"]), r["producer"])
+                      for c in comps for r in c["refs"] if not r["direct"] and r["producer"] not in keys}
+        referenced |= {((b["ref"]["stage"] or 0), b["ref"]["producer"]) for b in loop_bindings}
+        sinks = [c for c in comps if (c["stage"], c["name"]) not in referenced]
+        cond_c = [c for c in sinks if (c["stage"], c["name"]) == (cond_stage, cond_name)]
+        owners = cond_c if (cond_c and rng.random() < 0.75) else sinks
+        if owners:
+            for c in rng.sample(owners, min(len(owners), rng.choice([1, 1, 2]))):
+                if (c["stage"], c["name"]) in referenced:
+                    continue          # an earlier aggregate reference made another component depend on it
+                cands = [t for t in comps if t is not c and t["stage"] <= c["stage"]]
+                if not cands:
+                    continue
+                t = rng.choice(cands)
+                m = rng.choice(AGG)
+                f = rng.choice(["", "", "res.dat"]) if m == "loopref" else ""
+                spelled = None if (t["stage"] == c["stage"] and rng.random() < 0.5) else t["stage"]
+                c["refs"].insert(rng.randint(0, len(c["refs"])), R(t["name"], m, stage=spelled, file=f))
+                agg_targets.append((t["stage"], t["name"]))
+                referenced.add((t["stage"], t["name"]))
     # reference occurrences of the command line: every argument-capable reference once, sometimes one of them twice
     for c in comps:
         idx = [i for i, r in enumerate(c["refs"]) if r["method"] in ARG_METHODS]
@@ -176,7 +213,7 @@ def gen_loop(rng, imp, src_no, avoid_names):
     cond_file = rng.choice(["", "next.txt"])
     loop = {"import": imp, "loop": comps, "bindings": bindings, "loopBindings": loop_bindings,
             "cond": {"stage": cond_stage, "name": cond_name, "file": cond_file}}
-    return loop, sources
+    return loop, sources, agg_targets
 
 
 def gen_ops(rng, ks, ctl):
@@ -199,14 +236,34 @@ def gen_ops(rng, ks, ctl):
     return ops, mode
 
 
+# ambient setting: the logging configuration of the process (`elaunch.py -l 10`, a notebook that configured the root
+# logger, …).  The loggers of the anchored modules and the numeric levels their statements use (12-15, 18, 19 besides
+# the standard ones).  None = logging disabled altogether (what the other cases run with).
+LOGGERS = ["graph", "graph.workflowgraph", "flowir", "control.controller", "controller.transitiontofinalstate"]
+LOG_LEVELS = [1, 5, 10, 12, 13, 14, 15, 18, 19, 20, 30]
+
+
+def gen_log(rng):
+    r = rng.random()
+    if r < 0.45:
+        return None
+    if r < 0.75:
+        # the whole process at one level (root logger; 0 = NOTSET on the root: everything is emitted)
+        return {"root": rng.choice([0, 1, 10, 10, 12, 13, 13, 14, 15, 19, 20]), "loggers": {}}
+    # the root stays at its default (WARNING) or INFO, some loggers of the anchored modules are turned up (or NOTSET)
+    names = rng.sample(LOGGERS, rng.randint(1, 3))
+    return {"root": rng.choice([None, 20, 30, 10]), "loggers": {n: rng.choice(LOG_LEVELS + [0, 10, 13]) for n in names}}
+
+
 def gen_case(rng, budget, kchoices):
     nl = rng.choice([1, 1, 2, 2, 2, 3])
-    loops, sources, taken, used_names = [], [], set(), set()
+    loops, sources, taken, used_names, aggregated = [], [], set(), set(), []
     for l in range(nl):
         imp = rng.randint(0, 2)
         share = rng.random() < 0.5     # documents may use the same component names in different stages
+        agg = rng.random() < 0.3       # a looped component (mostly the condition) aggregates a looped sibling
         for attempt in range(12):
-            lp, srcs = gen_loop(rng, imp, len(sources), None if (share and attempt < 6) else used_names)
+            lp, srcs, aggt = gen_loop(rng, imp, len(sources), None if (share and attempt < 6) else used_names, agg)
             ids = {(c["stage"] + imp, c["name"]) for c in lp["loop"]}
             if not (ids & taken):
                 break
@@ -214,9 +271,18 @@ def gen_case(rng, budget, kchoices):
         used_names |= {c["name"] for c in lp["loop"]}
         loops.append(lp)
         sources.extend(srcs)
+        aggregated += [(lp, [c for c in lp["loop"] if (c["stage"], c["name"]) == t][0]) for t in aggt]
     everything = [(lp, c) for lp in loops for c in lp["loop"]]
     last = max(lp["import"] + c["stage"] for lp, c in everything)
     consumers = []
+    for i, (lp, t) in enumerate(aggregated[:2]):
+        # the looped component that a looped sibling aggregates is also read from outside the loop (so the same
+        # placeholder has a consumer inside — possibly the producer of the condition — and one outside)
+        if rng.random() < 0.85:
+            m = rng.choice(["ref", "output", "copy", "loopref", "loopoutput"])
+            consumers.append({"stage": last + rng.randint(0, 1), "name": "share%d" % i,
+                              "refs": [R(t["name"], m, stage=t["stage"] + lp["import"],
+                                         file=rng.choice(["", "f.csv"]) if m in ("ref", "copy", "loopref") else "")]})
     for i in range(rng.randint(1, 2)):
         lp, t = rng.choice(everything)
         m = rng.choice(["ref", "output", "copy"])
@@ -255,6 +321,9 @@ def gen_case(rng, budget, kchoices):
     ctl = rng.random() < 0.65
     ops, mode = gen_ops(rng, ks, ctl)
     case = {"loops": loops, "sources": sources, "consumers": consumers, "ops": ops, "ctl": ctl, "mode": mode}
+    log = gen_log(rng)
+    if log is not None:
+        case["log"] = log
     starts = restart_stages(case)
     if ctl and starts and rng.random() < 0.6:
         # restart: the documents that lie entirely before the start stage did their iterations in the earlier run
@@ -353,6 +422,24 @@ REPEATED_ARG = {
 }
 
 
+# the component that produces the condition aggregates a looped sibling (`stop when the history of x has converged`)
+# and the same sibling is read from outside the loop
+COND_AGGREGATES = {
+    "import": 1, "k": 3,
+    "loop": [{"stage": 0, "name": "x", "refs": [R("in0", "output")]},
+             {"stage": 0, "name": "y", "refs": [R("x", "ref")]},
+             {"stage": 0, "name": "stop", "refs": [R("x", "loopoutput"), R("y", "loopref", stage=0, file="res.dat"),
+                                                    R("x", "output")]}],
+    "bindings": [{"key": "in0", "ref": R("src0", "output", stage=0)}],
+    "loopBindings": [{"key": "in0", "ref": R("x", "output")}],
+    "cond": {"stage": 0, "name": "stop", "file": ""},
+    "sources": [{"stage": 0, "name": "src0", "refs": []}],
+    "consumers": [{"stage": 2, "name": "plain0", "refs": [R("x", "ref", stage=1)]},
+                  {"stage": 2, "name": "agg0", "refs": [R("y", "loopref", stage=1)]},
+                  {"stage": 1, "name": "share0", "refs": [R("x", "loopoutput", stage=1)]}],
+}
+
+
 def _same_template(imp):
     return {"import": imp,
             "loop": [{"stage": 0, "name": "x", "refs": [R("in0", "output")]},
@@ -430,7 +517,7 @@ def model_request(case, num=True):
     docs = [{"comps": [comp(c) for c in lp["loop"]], "bindings": lp["bindings"], "loopBindings": lp["loopBindings"],
              "condStage": lp["cond"]["stage"], "condName": lp["cond"]["name"], "condFile": lp["cond"]["file"],
              "importStage": lp["import"]} for lp in case["loops"]]
-    return {"op": "runm", "num": num, "docs": docs,
+    return {"op": "runm", "num": num, "docs": docs, "sparse": bool(case.get("sparse")),
             "ops": [["adv", op[1]] if op[0] == "adv" else ["read"] for op in case["ops"]],
             "out": [comp(c) for c in case["sources"] + case["consumers"]]}
 
@@ -457,6 +544,15 @@ def resolve_consumer(wg, spec, root):
                 # reads from is the one true_reference_to_component_id reports
                 res.append([dr.stringRepresentation,
                             [[cid(*x), ""] for x in dr.true_reference_to_component_id(wg)]])
+            elif dr.method == "loopoutput":
+                # resolve() of :loopoutput reads one file per instance, in the order of the aggregate (nothing ran:
+                # none of them is there and the error lists them in that order)
+                import experiment.model.errors as E
+                try:
+                    got = dr.resolve(wg)
+                    res.append([dr.stringRepresentation, "resolved:" + got])
+                except E.DataReferenceFilesDoNotExistError as exc:
+                    res.append([dr.stringRepresentation, [list(path_to_id(x, root)) for _, x in exc.referenceErrors]])
             else:
                 res.append([dr.stringRepresentation,
                             [list(path_to_id(x, root)) for x in dr.resolve(wg).split()]])
@@ -557,6 +653,32 @@ def do_read(kind, wg, case, G, ctl):
     return None
 
 
+def apply_log(cfg):
+    """the ambient logging configuration of the case: None = logging disabled; otherwise the level of the root logger
+    (None: left as it is) and of named loggers; records go to a NullHandler (nothing is printed; `isEnabledFor`, the
+    formatting of the messages and whatever the statements evaluate happen as in a verbose run).  Returns the undo."""
+    if cfg is None:
+        logging.disable(logging.CRITICAL)
+        return lambda: None
+    root = logging.getLogger()
+    saved_handlers, saved_level = root.handlers[:], root.level
+    names = list(cfg.get("loggers", {}))
+    saved = {n: logging.getLogger(n).level for n in names}
+    root.handlers = [logging.NullHandler()]
+    logging.disable(logging.NOTSET)
+    if cfg.get("root") is not None:
+        root.setLevel(cfg["root"])
+    for n in names:
+        logging.getLogger(n).setLevel(cfg["loggers"][n])
+
+    def undo():
+        for n in names:
+            logging.getLogger(n).setLevel(saved[n])
+        root.setLevel(saved_level)
+        root.handlers = saved_handlers
+    return undo
+
+
 def impl_run(case, tmp):
     """returns {"steps": [observation after the load, after op 1, …]} or {"error": …, "steps": […so far]}"""
     from harness import detsim
@@ -567,15 +689,18 @@ def impl_run(case, tmp):
     main, extra = package_for(case)
     cwd = os.getcwd()
     steps = []
+    at = []            # number of operations applied when the observation was made
+    sparse = bool(case.get("sparse"))       # observe only after the load and after the last operation
+    store = any(op[0] == "read" and op[1] == "reload" for op in case["ops"])
     prev = logging.root.manager.disable
-    logging.disable(logging.CRITICAL)
+    restore_log = apply_log(case.get("log"))
     n_int, n_eng = len(env["intervals"]), len(env["ENGINES"])
     exp = None
     try:
         try:
             exp = TU.experiment_from_flowir(main, tmp, extra_files=extra, checkExecutables=False)
         except Exception as exc:  # noqa
-            return {"error": "load:" + type(exc).__name__, "msg": str(exc)[-1500:], "steps": steps}
+            return {"error": "load:" + type(exc).__name__, "msg": str(exc)[-1500:], "steps": steps, "at": at}
         wg = exp.experimentGraph
         ctl = None
         where = "controller"
@@ -597,14 +722,16 @@ def impl_run(case, tmp):
                 ctl = make_controller()
             where = "observe"
             steps.append(observe(wg, case, G, ctl))
+            at.append(0)
             for n, op in enumerate(case["ops"]):
+                reloaded = None
                 if op[0] == "adv":
                     where = "iterate"
                     node = wg.get_document_metadata("DoWhile", dw_name(case, op[1]))
                     if ctl is not None:
                         ctl._instantiate_next_dowhile_iteration(node)
                     else:
-                        new = wg.instantiate_dowhile_next_iteration(node["document"], node["state"]["currentIteration"] + 1, False)
+                        new = wg.instantiate_dowhile_next_iteration(node["document"], node["state"]["currentIteration"] + 1, store)
                         if case.get("ctl"):
                             # the earlier run of a restarted experiment: give the new nodes their Job and working
                             # directory (what Controller._instantiate_next_dowhile_iteration does besides the
@@ -615,22 +742,37 @@ def impl_run(case, tmp):
                                 directory = exp.instanceDirectory.createJobWorkingDirectory(ident.stageIndex, ident.componentName)
                                 exp.getStage(ident.stageIndex).add_job(D.Job.jobFromConfiguration(ident, wg, directory))
                     preds = None
+                elif op[1] == "reload":
+                    # another entry point to the same code: the instance as stored on disk is loaded anew (restart,
+                    # read-only tools): all iterations are there at load time instead of arriving one by one
+                    where = "read-reload"
+                    import experiment.model.data as D
+                    exp2 = D.Experiment.experimentFromInstance(exp.instanceDirectory.location)
+                    reloaded = observe(exp2.experimentGraph, case, G, None)
+                    preds = None
                 else:
                     where = "read-" + op[1]
                     preds = do_read(op[1], wg, case, G, ctl)
                 if case.get("ctl") and ctl is None and n + 1 == npre:
                     where = "controller"
                     ctl = make_controller()
+                if sparse and n + 1 < len(case["ops"]):
+                    continue
                 where = "observe"
                 obs = observe(wg, case, G, ctl)
                 if preds is not None:
                     obs["ctl_preds"] = preds
+                if reloaded is not None:
+                    obs["reloaded"] = reloaded
                 steps.append(obs)
+                at.append(n + 1)
         except Exception as exc:  # noqa
             import traceback
-            return {"error": "%s:%s" % (where, type(exc).__name__), "msg": traceback.format_exc()[-1500:], "steps": steps}
-        return {"steps": steps}
+            return {"error": "%s:%s" % (where, type(exc).__name__), "msg": traceback.format_exc()[-1500:],
+                    "steps": steps, "at": at}
+        return {"steps": steps, "at": at}
     finally:
+        restore_log()
         logging.disable(prev if isinstance(prev, int) else logging.CRITICAL)
         os.chdir(cwd)
         for _, s in env["intervals"][n_int:]:
@@ -644,6 +786,62 @@ def impl_run(case, tmp):
             shutil.rmtree(exp.instanceDirectory.location, ignore_errors=True)  # noqa
         except Exception:
             pass
+
+
+def out_digest(out):
+    import json
+    return json.dumps({"steps": out["steps"], "error": out.get("error")}, sort_keys=True)
+
+
+def run_children(items):
+    """cases with a `hashseed`: the real code is run in a child process with that PYTHONHASHSEED (the order in which
+    the code under test enumerates its sets of component ids depends on it); one child per seed.  {index: out}"""
+    import json
+    import subprocess
+    import sys
+    outs = {}
+    by_seed = {}
+    for idx, case in items:
+        by_seed.setdefault(int(case["hashseed"]), []).append((idx, case))
+    for seed, lst in sorted(by_seed.items()):
+        tmp = tempfile.mkdtemp(prefix="c05-child-")
+        try:
+            fin, fout = os.path.join(tmp, "in.json"), os.path.join(tmp, "out.json")
+            json.dump([c for _, c in lst], open(fin, "w"))
+            env = dict(os.environ, PYTHONHASHSEED=str(seed), PYTHONDONTWRITEBYTECODE="1")
+            try:
+                r = subprocess.run([sys.executable, os.path.abspath(__file__), "--child", fin, fout], env=env,
+                                   stdout=subprocess.PIPE, stderr=subprocess.STDOUT, text=True, timeout=900)
+                res = json.load(open(fout))
+            except Exception as exc:  # noqa
+                raise RuntimeError("C05 child process (PYTHONHASHSEED=%d) failed: %r" % (seed, exc))
+            for (idx, _), o in zip(lst, res):
+                outs[idx] = o
+        finally:
+            shutil.rmtree(tmp, ignore_errors=True)
+    return outs
+
+
+def child_main(fin, fout):
+    import json
+    import sys
+    import warnings
+    verif = os.path.dirname(os.path.dirname(os.path.abspath(__file__)))
+    repo = os.environ.get("ST4SD_REPO", "/repo")
+    sys.path[:0] = [os.path.join(repo, "python"), repo, verif]
+    warnings.filterwarnings("ignore")
+    sys.dont_write_bytecode = True
+    os.chdir(verif)
+    from harness import c05, detsim
+    detsim.install()
+    tmp = tempfile.mkdtemp(prefix="c05-")
+    try:
+        res = [c05.impl_run(c, tmp) for c in json.load(open(fin))]
+        json.dump(res, open(fout, "w"))
+    finally:
+        shutil.rmtree(tmp, ignore_errors=True)
+    sys.stdout.flush()
+    os._exit(0)
 
 
 # ----------------------------------------------------------------------------------------
@@ -690,6 +888,11 @@ def oracle_step(case, ks, obs):
                                                        "unexpected": sorted(got_nodes - (want | outside)),
                                                        "concrete_missing": sorted((want | outside) - got_comps),
                                                        "concrete_unexpected": sorted(got_comps - (want | outside))}))
+    producers_of = {}
+    for a, b in obs["edges"]:
+        producers_of.setdefault(b, set()).add(a)
+        if a == b:
+            bad.append(("component-depends-on-itself", {"ks": ks, "j": max(ks), "component": a}))
     all_placeholders = set()
     for l, lp in enumerate(loops):
         imp, j = lp["import"], ks[l]
@@ -706,12 +909,19 @@ def oracle_step(case, ks, obs):
                 elif args_text(c, exp) and got["args"] != args_text(c, exp):
                     bad.append(("wiring-arguments-of-instance", {"j": j, "loop": l, "instance": name,
                                                                  "expected": args_text(c, exp), "got": got["args"]}))
-                # dataflow edges: every component reference of the instance is an edge of the graph
+                # dataflow edges: every component reference of the instance is an edge of the graph; an aggregate
+                # reference to a looped sibling is an edge from each of its instances 0 … j
                 for t in exp:
                     pr = ref_parse(t)
-                    if pr.get("direct") or pr["method"] in AGG:
+                    if pr.get("direct"):
                         continue
-                    if [cid(pr["stage"], pr["producer"]), name] not in obs["edges"]:
+                    if pr["method"] in AGG:
+                        want_p = {cid(pr["stage"], "%d#%s" % (ii, pr["producer"])) for ii in range(j + 1)}
+                        if not want_p <= producers_of.get(name, set()):
+                            bad.append(("wiring-edge-missing", {"j": j, "loop": l, "instance": name, "reference": t,
+                                                                "producer": sorted(want_p - producers_of.get(name, set()))}))
+                        continue
+                    if cid(pr["stage"], pr["producer"]) not in producers_of.get(name, set()):
                         bad.append(("wiring-edge-missing", {"j": j, "loop": l, "instance": name,
                                                             "producer": cid(pr["stage"], pr["producer"])}))
         for c in lp["loop"]:
@@ -758,8 +968,29 @@ def oracle_step(case, ks, obs):
             j = ks[l]
             insts = [cid(r["stage"], "%d#%s" % (i, tgt["name"])) for i in range(j + 1)]
             res = got.get(ref_text(r))
+            # wiring of the consumer: it depends on (has an edge from) what its reference denotes — the newest
+            # instance resp. all instances — and on the producer of the loop's current condition, the one of
+            # iteration j (the loop is not over before that component decided)
+            me = cid(c["stage"], c["name"])
+            mine = producers_of.get(me, set())
+            lpc = loops[l]["cond"]
+            cond_j = cid(lpc["stage"] + loops[l]["import"], "%d#%s" % (j, lpc["name"]))
             if r["method"] in AGG:
-                if res != [[x, r["file"]] for x in insts]:
+                if not set(insts) <= mine:
+                    bad.append(("aggregate-consumer-not-wired-to-all-instances",
+                                {"j": j, "loop": l, "consumer": c["name"], "reference": ref_text(r),
+                                 "missing": sorted(set(insts) - mine), "producers": sorted(mine)}))
+            elif insts[-1] not in mine:
+                bad.append(("outside-consumer-not-wired-to-numerically-latest-instance",
+                            {"j": j, "loop": l, "consumer": c["name"], "reference": ref_text(r),
+                             "expected": insts[-1], "producers": sorted(mine)}))
+            if cond_j not in mine:
+                bad.append(("outside-consumer-not-wired-to-condition-of-iteration-k",
+                            {"j": j, "loop": l, "consumer": c["name"], "reference": ref_text(r),
+                             "expected": cond_j, "producers": sorted(mine)}))
+            if r["method"] in AGG:
+                want_file = r["file"] or ("out.stdout" if r["method"] == "loopoutput" else "")
+                if res != [[x, want_file] for x in insts]:
                     bad.append(("loopref-not-in-increasing-iteration-order",
                                 {"j": j, "loop": l, "consumer": c["name"], "reference": ref_text(r), "got": res}))
             elif r["method"] != "output":
@@ -780,9 +1011,16 @@ def oracle_run(case, out):
     case = norm(case)
     res, seen = [], set()
     nl = len(case["loops"])
-    for n, obs in enumerate(out["steps"]):
+    at = out.get("at") or list(range(len(out["steps"])))
+    for i, obs in enumerate(out["steps"]):
+        n = at[i]
         ks = counts(case["ops"][:n], nl)
-        for slug, detail in oracle_step(case, ks, obs):
+        found = [(slug, detail) for slug, detail in oracle_step(case, ks, obs)]
+        if "reloaded" in obs:
+            # the instance loaded anew from disk is the same workflow: every clause holds for it as well
+            found += [(slug, dict(detail, observed="instance reloaded from disk"))
+                      for slug, detail in oracle_step(case, ks, obs["reloaded"])]
+        for slug, detail in found:
             if slug not in seen:      # first observation at which this clause fails
                 seen.add(slug)
                 detail = dict(detail, after_ops=n, last_op=case["ops"][n - 1] if n else None)
@@ -839,6 +1077,21 @@ RELATIONS = [("components, their references and the reference occurrences of the
               "ctlPreds")]
 
 
+def log_class(cfg):
+    """does the configuration enable the verbose statements (numeric level <= 13) of the graph loggers?"""
+    if cfg is None:
+        return "disabled"
+    def eff(name):
+        while name:
+            lvl = cfg.get("loggers", {}).get(name)
+            if lvl:
+                return lvl
+            name = name.rpartition(".")[0]
+        return cfg.get("root") if cfg.get("root") is not None else logging.WARNING
+    lvl = eff("graph.workflowgraph")
+    return "graph<=13" if lvl <= 13 else "graph<=19" if lvl <= 19 else "graph>=20"
+
+
 def shares_names(case):
     names = [c["name"] for lp in case["loops"] for c in lp["loop"]]
     return len(set(names)) < len(names)
@@ -853,15 +1106,32 @@ def check_cases(ctx, cases):
             ctx.notes.append("known findings recorded for C05: %s (model compared with num=%s)" % (sorted(known), num))
         cases = [(kind, norm(c)) for kind, c in cases]
         mouts = ctx.model([model_request(c, num=num) for _, c in cases])
+        child_outs = run_children([(idx, c) for idx, (_, c) in enumerate(cases) if c.get("hashseed") is not None])
         for idx, (kind, case) in enumerate(cases):
-            out = impl_run(case, tmp)
+            out = child_outs[idx] if idx in child_outs else impl_run(case, tmp)
+            if case.get("again_after") and idx not in child_outs:
+                # process-level state: the same case once more in this process, after other cases that use the same
+                # component / document / placeholder names in other roles — the answer must be the same
+                for other in case["again_after"]:
+                    impl_run(norm(other), tmp)
+                out2 = impl_run(case, tmp)
+                if out_digest(out2) != out_digest(out):
+                    first = [i for i, (a, b) in enumerate(zip(out["steps"], out2["steps"])) if a != b]
+                    ctx.fail("result-depends-on-earlier-cases", case,
+                             {"first_run_error": out.get("error"), "second_run_error": out2.get("error"),
+                              "observations": [len(out["steps"]), len(out2["steps"])],
+                              "first_differing_observation": first[:1],
+                              "differing_keys": sorted(k for k in out["steps"][first[0]]
+                                                       if out["steps"][first[0]][k] != out2["steps"][first[0]].get(k)) if first else []})
+                ctx.tag("run-again-after-other-cases")
             nl = len(case["loops"])
             ks = counts(case["ops"], nl)
             kmax = max(ks)
             reads = [op[1] for op in case["ops"] if op[0] == "read"]
             nontrivial = sum(ks) >= 1
             tags = ["kind:" + kind, "documents:%d" % nl, "start-stage:%d" % case.get("start", 0),
-                    "kmax:%s" % ("0" if kmax == 0 else "1-9" if kmax <= 9 else "10-12" if kmax <= 12 else "13-25"),
+                    "kmax:%s" % ("0" if kmax == 0 else "1-9" if kmax <= 9 else "10-12" if kmax <= 12 else "13-25" if kmax <= 25 else ">=100"),
+                    "hash-seed:%s" % ("other (child process)" if case.get("hashseed") is not None else "own"),
                     "controller:%s" % ("yes" if case.get("ctl") else "no"), "reads:%d" % min(len(reads), 5),
                     "interleaving:%s" % case.get("mode", "?")]
             tags += ["read:" + r for r in sorted(set(reads))]
@@ -890,6 +1160,17 @@ def check_cases(ctx, cases):
                 tags.append("has-relative-internal-reference")
             if any(c["stage"] > 0 for lp in case["loops"] for c in lp["loop"]):
                 tags.append("template-stage>0")
+            tags.append("logging:" + log_class(case.get("log")))
+            for lp in case["loops"]:
+                keys_ = {b["key"] for b in lp["bindings"]}
+                for c in lp["loop"]:
+                    for r in c["refs"]:
+                        if r["method"] in AGG and not r["direct"] and r["producer"] not in keys_:
+                            is_cond = (c["stage"], c["name"]) == (lp["cond"]["stage"], lp["cond"]["name"])
+                            tags.append("aggregate-inside-loop:" + ("by-condition" if is_cond else "by-other"))
+                            tgt = ((r["stage"] if r["stage"] is not None else c["stage"]) + lp["import"], r["producer"])
+                            if any((q["stage"], q["producer"]) == tgt for o in case["consumers"] for q in o["refs"]):
+                                tags.append("aggregated-sibling-also-read-from-outside")
             ctx.case(case, nontrivial=nontrivial, tags=tags)
             if "error" in out:
                 ctx.tag("impl:" + out["error"])
@@ -932,6 +1213,23 @@ def check_cases(ctx, cases):
                                          {key: cm[key]}, {key: ci[key]}) if first_bad is None else True
                         if not ok and first_bad is None:
                             first_bad = (j, key)
+                    if "reloaded" in obs and first_bad is None:
+                        # the instance loaded anew from what is stored on disk: the same components, placeholders and
+                        # document states; its edges are those of ONE graph construction over the whole workflow
+                        ri = canon_impl_step(obs["reloaded"])
+                        rm = canon_model_step(msteps[j], obs["reloaded"])
+                        rm["edges"] = sorted(set(map(tuple, msteps[j]["freshEdges"])))
+                        ri["edges"] = sorted(set(map(tuple, ri["edges"])))
+                        if shared_names:
+                            for side in (ri, rm):
+                                for e in side["placeholders"].values():
+                                    e["maplatest"] = None
+                        for key in ("comps", "nodes", "edges", "placeholders", "docs"):
+                            ok = ctx.compare("instance reloaded from disk (Experiment.experimentFromInstance): %s == "
+                                             "Loop.runOps(...) / Loop.edgesOfM of its components" % key,
+                                             {"case": case, "after_ops": j}, {key: rm[key]}, {key: ri[key]})
+                            if not ok and first_bad is None:
+                                first_bad = (j, key)
                     if first_bad is not None:
                         break
                 if first_bad is not None and ctx.driver is not None:
@@ -1153,7 +1451,16 @@ def run(ctx):
                 "placeholder states, scheduler dependency test, reference resolution) are inserted anywhere, often "
                 "after the last iteration; with >= 2 documents some of these cases are restarts: the Controller is started at a "
                 "later stage after the documents of the earlier stages did their iterations (their placeholders are "
-                "marked FINISHED), the other documents iterate under it.  The workflow is observed and compared after the load and after every "
+                "marked FINISHED), the other documents iterate under it.  In 30% of the documents a looped component on "
+                "which nothing in the loop depends (mostly the condition component) aggregates a looped sibling with "
+                ":loopref/:loopoutput, and that sibling is usually also read from outside the loop.  Ambient setting: 55% "
+                "of the cases run under a sampled logging configuration (root logger or the loggers graph / "
+                "graph.workflowgraph / flowir / control.controller at levels 0,1,5,10,12-15,18-20,30; records go to a "
+                "NullHandler) instead of disabled logging.  Read operation `reload`: the instance stored on disk is "
+                "loaded anew (Experiment.experimentFromInstance) and observed like the live one.  A sample of the small "
+                "cases is run again in child processes with other PYTHONHASHSEEDs, and again in the same process after "
+                "other cases with the same names in other roles; thorough: 101 / 100 iterations observed at the end "
+                "only.  The workflow is observed and compared after the load and after every "
                 "operation.  non-trivial = at least one iteration instantiated; distinct by the canonical JSON of "
                 "the case.")
     ctx.assumptions = [
@@ -1165,7 +1472,14 @@ def run(ctx):
         "predecessor of a placeholder of a live document is 'active')",
         "restart cases (`start` > 0): every document lies entirely before the start stage (its iterations were "
         "instantiated before the Controller exists, its placeholders are then FINISHED) or entirely at/after it",
-        ":loopoutput shares looped_reference_to_paths with :loopref and is not exercised separately (it reads files)",
+        ":loopoutput shares looped_reference_to_paths with :loopref; nothing ran, so its resolve() fails with the list "
+        "of the missing per-instance files in aggregate order: that order is what is observed for :loopoutput consumers",
+        "aggregate references inside a loop are only given to looped components on which no other looped component "
+        "depends (no reference to them, not the source of a loopBinding): for any other component the expansion "
+        "`all instances + producer of the current condition` closes a dependency cycle in the code as it is",
+        "an outside consumer's wiring is judged on the graph edges (the Controller derives readiness from them): it "
+        "must have an edge from the instance(s) its reference denotes and from the producer of the condition of "
+        "iteration k",
         "reference strings are parsed by the harness' own regular expression; the text-level parse/compile of references "
         "inside the real code is trusted here (property C09)"]
     ctx.trusted.append("C05: references modelled in parsed form; experiment_from_flowir / new_controller (tests/utils.py) "
@@ -1186,6 +1500,12 @@ def run(ctx):
              ("corpus:restart-two-documents-earlier-iterated",
               dict(copy.deepcopy(RESTART_TWO_DOCUMENTS),
                    ops=[["adv", 0], ["adv", 0], ["adv", 1], ["read", "state"], ["adv", 1], ["read", "preds"], ["read", "deps"]])),
+             ("corpus:minimal-k3-verbose-logging", dict(norm(dict(copy.deepcopy(MINIMAL), k=3)), log={"root": 10, "loggers": {}})),
+             ("corpus:minimal-k3-controller-graph-logger-13",
+              dict(norm(dict(copy.deepcopy(MINIMAL), k=3)), ctl=True, log={"root": None, "loggers": {"graph.workflowgraph": 13}},
+                   ops=[["adv", 0], ["read", "deps"], ["adv", 0], ["adv", 0], ["read", "preds"]])),
+             ("corpus:condition-aggregates-sibling", copy.deepcopy(COND_AGGREGATES)),
+             ("corpus:condition-aggregates-sibling-controller", dict(norm(copy.deepcopy(COND_AGGREGATES)), ctl=True)),
              ("corpus:two-documents-no-controller",
               dict(copy.deepcopy(TWO_DOCUMENTS), ctl=False, ops=[["adv", 1], ["adv", 0], ["adv", 1], ["adv", 1], ["read", "resolve"]]))]
     cdir = os.path.join(os.path.dirname(os.path.dirname(os.path.abspath(__file__))), "corpus", "C05")
@@ -1201,8 +1521,29 @@ def run(ctx):
     else:
         ks = [0, 1, 2, 4, 6, 9, 10, 11, 12, 13, 15, 19, 20, 21, 22, 25, 25]
         n, budget = 250, 30
-    for _ in range(n):
-        cases.append(("generated", gen_case(rng, budget, ks)))
+    generated = [gen_case(rng, budget, ks) for _ in range(n)]
+    cases += [("generated", c) for c in generated]
+    small = [c for c in generated if 1 <= sum(counts(c["ops"], len(c["loops"]))) <= 6]
+    # (a) set-iteration order: a sample of the cases again in child processes with other hash seeds
+    nchild, seeds = (6, 2) if quick else (16, 3)
+    interesting = sorted(small, key=lambda c: -(2 * any(r["method"] in AGG for lp in c["loops"] for q in lp["loop"] for r in q["refs"])
+                                                + shares_names(c)))
+    for i in range(seeds):
+        hs = (int(ctx.seed) + 1009 * (i + 1)) % 4294967295
+        for c in interesting[:nchild]:
+            cases.append(("generated-other-hash-seed", dict(copy.deepcopy(c), hashseed=hs)))
+    # (b) process-level state: a case, other cases with the same names in other roles, the same case again
+    nagain = 3 if quick else 12
+    for i in range(min(nagain, len(small) // 3)):
+        a, b, c = small[3 * i], small[3 * i + 1], small[3 * i + 2]
+        cases.append(("generated-run-again-after-others", dict(copy.deepcopy(a), again_after=[b, c])))
+    if not quick:
+        # (c) three-digit iteration numbers; observed after the load and after the last operation only
+        big = norm(dict(copy.deepcopy(MINIMAL), k=101))
+        cases.append(("generated-k101", dict(big, sparse=True)))
+        cases.append(("generated-k100-controller-reload",
+                      dict(norm(dict(copy.deepcopy(COND_AGGREGATES), k=100)), sparse=True, ctl=True,
+                           ops=[["adv", 0]] * 100 + [["read", "reload"]], log={"root": 13, "loggers": {}})))
     check_cases(ctx, cases)
 
 
@@ -1216,3 +1557,9 @@ def replay(ctx, doc):
     if "case" in case:
         case = case["case"]
     check_cases(ctx, [("replay", case)])
+
+
+if __name__ == "__main__":
+    import sys as _sys
+    if len(_sys.argv) == 4 and _sys.argv[1] == "--child":
+        child_main(_sys.argv[2], _sys.argv[3])
